@@ -153,7 +153,8 @@ pub fn find_exec_start(unit: &str) -> Result<String, String> {
   for raw in unit.split(|c| c == '\n' || c == '\r') {
     let l = raw.to_string();
     let t = l.trim_start();
-    if !continuing && (t.starts_with('#') || t.starts_with(';')) { continue; }
+    // comment lines are skipped, also in the middle of a continued line (systemd.syntax(7))
+    if t.starts_with('#') || t.starts_with(';') { continue; }
     if l.ends_with('\\') {
       cur.push_str(&l[..l.len() - 1]); cur.push(' '); continuing = true;
     }
@@ -250,6 +251,7 @@ pub fn run(opts: &Opts) -> i32 {
     ("x\\x2ay \\u00e9 \\101 \\q", vec!["x*y", "é", "A", "\\q"]),
     ("%% %I $$ ${X} $X a$X ${X:-d}", vec!["%", INSTANCE_TOKEN, "$", "", "a$X", "d"]),
     ("a'b c'd", vec!["ab cd"]),
+    ("a \\\n  b \\\n# c\n  d", vec!["a", "b", "d"]),
   ];
   for (line, want) in &selftests {
     let got = decode(&format!("[Service]\nExecStart={}\n", line));
@@ -283,13 +285,17 @@ pub fn run(opts: &Opts) -> i32 {
     }
   } }
   // (3) random strings and lists of patterns
-  let n_rand = opts.num("random", if thorough { 400_000 } else { 30_000 });
+  let n_rand = opts.num("random", if thorough { 4_000_000 } else { 60_000 });
   for _ in 0..n_rand {
-    let n_pat = match rng.below(10) { 0..=5 => 1, 6..=7 => 2, 8 => 3, _ => 4 };
+    // mostly 1-4 patterns; now and then a long list (a line of several kilobytes)
+    let n_pat = match rng.below(200) { 0 => rng.range(30, 150), 1 => rng.range(5, 29), x if x < 120 => 1, x if x < 160 => 2, x if x < 180 => 3, _ => 4 };
+    if n_pat >= 30 { out.count("long_pattern_lists"); }
     let mut pats = vec![];
     for _ in 0..n_pat {
-      let len = rng.range(1, 10);
+      let len = if n_pat >= 30 { rng.range(8, 40) } else { rng.range(1, 10) };
       let mut s = String::new();
+      // comment characters and option-like starts at the beginning of a pattern
+      if rng.chance(1, 8) { s.push(*rng.pick(&['#', ';', '-', '@', ':', '+', '!'])); }
       for _ in 0..len {
         let c = match rng.below(10) {
           0..=4 => *rng.pick(&sc),
